@@ -458,8 +458,8 @@ def run(ctx):
         mid = cases[len(cases) // 2]
         ctx.sample({"set": what, "schedule": short(mid), "procd": mid["procd"], "writes": mid["writes"]})
         # every replayed case was compared action by action; its trace is validated as well for all (thorough)
-        # or a quarter (quick) of the two base sets and a tenth of the large thorough-only sets
-        step = (1 if what in [w for w, _ in sets[:2]] else 10) if ctx.thorough else 4
+        # or a quarter (quick) of the two base sets and a twentieth of the large thorough-only sets
+        step = (1 if what in [w for w, _ in sets[:2]] else 20) if ctx.thorough else 4
         for c in cases[::step]:
             r = results.get(c["id"])
             if r and r.get("trace") and not r.get("stuck"):
@@ -514,11 +514,6 @@ def run(ctx):
     ctx.cov["trace_events"] = sum(len(s) for s in segs)
     ctx.cov["trace_segments"] = {"replay": sum(1 for s in seg_src if s["kind"] == "replay"), "fuzz": len(fz),
                                  "gotest": len(tsegs), "rejected": len(real_rej)}
-    if held and ctx.thorough:
-        # statistic only: how many recorded executions show a deviation (rejected by the corrected design)
-        few = [k for k, sc in enumerate(seg_src) if sc["kind"] in ("fuzz", "gotest")]
-        rej0, _ = validate_segments(ctx, [segs[k] for k in few], (), True, "trace-corrected")
-        ctx.cov["trace_segments"]["fuzz_and_test_runs_showing_a_deviation"] = len(rej0)
     for k in real_rej:
         src = seg_src[k]
         # diagnosis: the segment alone, invariants as INVARIANTs
